@@ -385,7 +385,8 @@ class _FnPass:
         """x[...] = v / x.a op= v / del x[...]"""
         base = t.value if isinstance(t, ast.Subscript) else t.value
         for o in self.av(base, env):
-            self.mutate(o, st, f"store `{_txt(t)[:60]}`", op=_store_op(t))
+            for op_ in _store_ops(t):
+                self.mutate(o, st, f"store `{_txt(t)[:60]}`", op=op_)
 
     # ------------------------------------------------------------------------------------------------ effects
     def own_state(self, o):
@@ -738,6 +739,14 @@ def _basic_index(sl):
             continue  # an index variable in a slice expression (x[:, i]) -- a view if i is an integer; keep (may-alias)
         return False
     return True
+
+
+def _store_ops(t):
+    """a store to a literal list of columns x[['a', 'b']] = v is one store per column"""
+    if isinstance(t, ast.Subscript) and isinstance(t.slice, ast.List) and t.slice.elts \
+            and all(isinstance(e, ast.Constant) and isinstance(e.value, str) for e in t.slice.elts):
+        return ["setitem:" + repr(e.value) for e in t.slice.elts]
+    return [_store_op(t)]
 
 
 def _store_op(t):
